@@ -619,6 +619,15 @@ def forms_cases(quick):
             yield _case(size, 2, rng)
             if not quick:
                 yield _case(size, 64, rng, "etag", ext=".txt")
+    # many ranges that stay separate after merging (a server may cap or coalesce them only if the bytes stay exactly the selected ones)
+    for count in (13, 16, 17, 18, 32, 33, 64, 65, 100, 129) if quick else (13, 16, 17, 18, 24, 32, 33, 50, 64, 65, 100, 128, 129, 200, 257, 500):
+        for stride, width in ((2, 1), (3, 2), (7, 3)):
+            size = count * stride + 5
+            rng = "bytes=" + ",".join(f"{i * stride}-{i * stride + width - 1}" for i in range(count))
+            yield _case(size, 64 if count % 2 else 7, rng)
+        # the same number of specs, but merging down to a few ranges; descending order
+        yield _case(count * 2 + 5, 16, "bytes=" + ",".join(f"{i}-{i}" for i in range(count)))
+        yield _case(count * 2 + 5, 16, "bytes=" + ", ".join(f"{i * 2}-{i * 2}" for i in reversed(range(count))))
     for size in (5, DEFAULT_CHUNK, DEFAULT_CHUNK + 1) if quick else (0, 5, DEFAULT_CHUNK - 1, DEFAULT_CHUNK, DEFAULT_CHUNK + 1, 2 * DEFAULT_CHUNK + 1):
         for rng in (None, "bytes=1-", "bytes=0-0,-2"):  # chunk size left to the constructor's default
             yield _case(size, None, rng)
